@@ -141,10 +141,10 @@ def _entries():
             "scalar", [0.3, 1.0, 2.5], (lambda k: lambda r: H.Polygon.regular_polygon(k, radius=r))(n), None, True)
     E["hyperbolic.regular_polygon_radius"] = ("scalar", [0.4, 1.0], lambda a: H.regular_polygon_radius(5, a), None, True)
     E["hyperbolic.polygon_interior_angle"] = ("scalar", [0.3, 1.0, 2.0], lambda r: H.polygon_interior_angle(5, r), None, True)
-    pts = [[0.1, 0.0], [0.5, -0.25], [1.0, 0.0], [0.0, 0.0]]
+    pts = [[0.1, 0.0], [0.5, -0.25], [1.0, 0.0], [0.0, 0.0], [[0.0, 1.0], [-1.0, 0.0]]]
     for model in ("klein", "poincare"):
         E["hyperbolic.Point/%s" % model] = ("array", pts, (lambda m: lambda c: H.Point(c, model=m))(model), None, False)
-    E["hyperbolic.Point/halfspace"] = ("array", [[0.5, 1.0], [-2.0, 0.25], [0.0, 1.0]],
+    E["hyperbolic.Point/halfspace"] = ("array", [[0.5, 1.0], [-2.0, 0.25], [0.0, 1.0], [1.0, 2.0], [[3.0, 1.0], [-1.0, 4.0]]],
                                        lambda c: H.Point(c, model="halfspace"), None, False)
     E["hyperbolic.get_point"] = ("array", pts[:2], lambda c: H.get_point(c), None, False)
     proj = [[1.0, 0.5, 0.25], [2.0, -1.0, 0.0], [[1.0, 0.0, 0.5], [1.0, 0.25, 0.25]]]
@@ -183,6 +183,27 @@ def _entries():
                 return r
             return np.stack([_data(r[x]) for x in "abc"])
         E["TriangleGroup." + route] = ("array", tri, g, None, True)
+    # infinite labels (negative entries), free Cartan parameters
+    inf_mats = [[[1, -1, 3], [-1, 1, -1], [3, -1, 1]], [[1, -1, -1], [-1, 1, 4], [-1, 4, 1]]]
+    params = {(0, 1): -3.0, (1, 2): -2.5, (0, 2): -2.25}
+
+    def with_params(m):
+        return {k: v for k, v in params.items() if np.array(m)[k] < 0}
+    for route in ("bilinear_form", "geometric_representation", "canonical_representation", "cartan_matrix", "tits_vinberg_rep",
+                  "rep-then-cartan_matrix"):
+        def h(m, route=route):
+            G = coxeter.CoxeterGroup(matrix=m)
+            pr = with_params(inf_mats[0] if np.array(m, dtype=float)[0][2] == 3 else inf_mats[1])
+            if route == "bilinear_form":
+                return G.bilinear_form()
+            if route == "cartan_matrix":
+                return G.cartan_matrix(pr)
+            if route == "rep-then-cartan_matrix":
+                G.canonical_representation()
+                return np.stack([G.cartan_matrix(pr), np.array(G.coxeter_matrix, dtype=float)])
+            r = G.tits_vinberg_rep(pr) if route == "tits_vinberg_rep" else getattr(G, route)()
+            return np.stack([_data(r[g]) for g in "abc"])
+        E["CoxeterGroup(matrix,inf)." + route] = ("array", inf_mats, h, None, True)
     return E
 
 
@@ -238,12 +259,15 @@ def case_packaging(case):
         ref = _data(f(ref_in))
     except Exception as e:
         return {"v": [{"key": key("reference-raises"), "msg": "%s(%r as float64) raises %s: %s" % (name, v, type(e).__name__, str(e)[:200])}], "t": 1}
+    snapshot = np.array(got_in, copy=True) if isinstance(got_in, np.ndarray) else None
     try:
         res = f(got_in)
     except Exception as e:
         return {"v": [{"key": key("raises"), "msg": "%s(%r packaged as %s) raises %s: %s" % (name, v, how, type(e).__name__, str(e)[:200])}],
                 "t": 2, "o": "EXC"}
     got = _data(res)
+    if isinstance(got_in, np.ndarray) and not np.array_equal(got_in, snapshot):
+        viol.append({"key": key("input-mutated"), "msg": "%s(%r as %s) changed the caller's array to %r" % (name, v, how, got_in)})
     if got.dtype == np.dtype("O"):
         viol.append({"key": key("object-dtype"), "msg": "%s(%r as %s) has dtype object" % (name, v, how)})
         return {"v": viol, "t": 2, "o": "object"}
@@ -375,7 +399,8 @@ def rescale_cases(dims, seed, quick):
         for i in sub:
             for l in LAM[1:]:
                 yield {"f": "coords", "n": n, "pts": [i], "lam": [l]}
-                yield {"f": "origin_to", "n": n, "pts": [i], "lam": [l]}
+                if n >= 2:
+                    yield {"f": "origin_to", "n": n, "pts": [i], "lam": [l]}
         pairs = [(i, j) for i in sub for j in sub if i != j]
         if quick:
             pairs = pairs[::3]
@@ -385,12 +410,13 @@ def rescale_cases(dims, seed, quick):
                     continue
                 yield {"f": "distance", "n": n, "pts": [i, j], "lam": list(lam)}
                 yield {"f": "segment", "n": n, "pts": [i, j], "lam": list(lam)}
-                yield {"f": "tangent", "n": n, "pts": [i, j], "lam": list(lam)}
-                yield {"f": "image", "n": n, "pts": [i, j], "lam": list(lam)}
+                if n >= 2:
+                    yield {"f": "tangent", "n": n, "pts": [i, j], "lam": list(lam)}
+                    yield {"f": "image", "n": n, "pts": [i, j], "lam": list(lam)}
         triples = [(i, j, k) for i in sub[:6] for j in sub[:6] for k in sub[:6] if len({i, j, k}) == 3]
         if quick:
             triples = triples[::7]
-        for t in triples:
+        for t in (triples if n >= 2 else []):
             for lam in itertools.product(LAM, repeat=3):
                 if lam == (1.0, 1.0, 1.0):
                     continue
@@ -477,6 +503,7 @@ def case_rescale(case):
     ref = _geom(f, n, K, [1.0] * len(K), seed, quick)
     got = _geom(f, n, K, lam, seed, quick)
     v = []
+    nan_ref = 0
     sign_class = "negative" if any(l < 0 for l in lam) else "positive"
     for name in ref:
         mode, a = ref[name]
@@ -486,6 +513,11 @@ def case_rescale(case):
         a, b = np.asarray(a, dtype=float), np.asarray(b, dtype=float)
         if a.shape != b.shape:
             v.append({"key": "rescale/%s/shape" % f, "msg": "%s: %s vs %s" % (name, a.shape, b.shape)})
+            continue
+        if mode == "abs6" and f == "angle" and np.isnan(a).any():
+            # arccos just outside [-1, 1] for an exactly straight angle: NaN on the unscaled input is
+            # not a rescaling relation (it is C13's business); nothing to compare
+            nan_ref += 1
             continue
         if mode == "abs":
             err = np.max(np.abs(a - b)) if a.size else 0.0
@@ -505,7 +537,7 @@ def case_rescale(case):
         if not err <= tol:
             v.append({"key": "rescale/%s/%s/%s-factor" % (f, name.split("(")[0].split("/")[0], sign_class),
                       "msg": "%s n=%d pts=%r lambda=%r: %s changes by %.3g\nunscaled %r\nscaled   %r" % (f, n, [k.tolist() for k in K], lam, name, err, a, b)})
-    return {"v": v, "t": 2 * max(1, len(ref)), "o": (f, n, sign_class, len(ref)), "nt": True}
+    return {"v": v, "t": 2 * max(1, len(ref)), "o": (f, n, sign_class, len(ref), nan_ref), "nt": True}
 
 
 # =============================================================================================
@@ -518,6 +550,7 @@ def run(ctx):
     ctx.assume("integer-only coordinates given to a plain constructor (Point/Transformation/array_like) may stay integer (pinned by test_get_origin); "
                "entry points that take angles, lengths or Coxeter labels must return floating data for integer input too")
     ctx.assume("a segment's two ideal endpoints are compared as an unordered pair")
+    ctx.assume("tangent vectors, angles and origin_to are exercised in dimension >= 2 only (C13's range); coordinates, distance and segments also in dimension 1")
     ctx.tolerances.update({"packaging": "1e-9 relative-absolute; 2e-5 when the packaging is float32 (input carries 6e-8 relative error)",
                            "rescale": "1e-8 on Klein coordinates of lattice points (|k|<=0.9), 1e-6 class for ideal endpoints / circle parameters / arccos"})
     ctx.product("packaging", "checks.c12:case_packaging", list(packaging_cases()),
